@@ -2,11 +2,9 @@ SPECIFICATION Spec
 CONSTANTS
   Threads = {t1, t2, t3}
   Keys = {k1}
-  MaxOps = 4
+  MaxOps = 2
   KeygenOrder <- OrderAsCoded
   PinIsCounter = TRUE
-  WithCallback = FALSE
-INVARIANT MutualExclusion
-INVARIANT Serializable
+  WithCallback = TRUE
 PROPERTY Progress
 CHECK_DEADLOCK FALSE
